@@ -205,7 +205,55 @@ static int op_mpq_inp_str(int argc, tok_t *a, out_t *o) {
   fclose(f); free(keep); mpq_clear(q); return 0;
 }
 
+/* mpz_roundtrip base x: mpz_get_str, then mpz_set_str of exactly those bytes (base |base|)      -> rc value
+   mpz_io_roundtrip base x: mpz_out_str to a memory stream, then mpz_inp_str from it           -> wrote read value */
+static int op_mpz_roundtrip(int argc, tok_t *a, out_t *o) {
+  NEED(argc == 2 && a[0].kind == T_NUM && a[1].kind == T_NUM);
+  long base = tok_long(&a[0]); long ab = base < 0 ? -base : base;
+  mpz_t x, y; mpz_init(x); mpz_init2(y, 1); tok_mpz(x, &a[1]);
+  char *r = mpz_get_str(NULL, (int) base, x);
+  if (!r) out_err(o, "null");
+  else {
+    int rc = mpz_set_str(y, r, (int) ab);
+    out_long(o, rc); if (rc == 0) out_mpz(o, y);
+    void (*ff)(void *, size_t); mp_get_memory_functions(NULL, NULL, &ff);
+    ff(r, strlen(r) + 1);
+  }
+  mpz_clear(x); mpz_clear(y); return 0;
+}
+static int op_mpz_io_roundtrip(int argc, tok_t *a, out_t *o) {
+  NEED(argc == 2 && a[0].kind == T_NUM && a[1].kind == T_NUM);
+  long base = tok_long(&a[0]); long ab = base < 0 ? -base : base;
+  mpz_t x, y; mpz_init(x); mpz_init2(y, 1); tok_mpz(x, &a[1]);
+  char *mem = NULL; size_t msz = 0; FILE *f = open_memstream(&mem, &msz);
+  size_t w = mpz_out_str(f, (int) base, x);
+  fclose(f);
+  out_ulong(o, w);
+  if (msz > 0) {
+    FILE *g = fmemopen(mem, msz, "r");
+    size_t rd = mpz_inp_str(y, g, (int) ab);
+    out_ulong(o, rd); if (rd) out_mpz(o, y);
+    fclose(g);
+  }
+  free(mem); mpz_clear(x); mpz_clear(y); return 0;
+}
+static int op_mpq_roundtrip(int argc, tok_t *a, out_t *o) {
+  NEED(argc == 3 && a[0].kind == T_NUM && a[1].kind == T_NUM && a[2].kind == T_NUM && a[2].n >= 1 && !a[2].neg);
+  long base = tok_long(&a[0]); long ab = base < 0 ? -base : base; NEED(ab >= 2 && ab <= 36);
+  mpq_t q, r; mpq_init(q); mpq_init(r); tok_mpq(q, &a[1], &a[2]);
+  char *s = mpq_get_str(NULL, (int) base, q);
+  if (!s) out_err(o, "null");
+  else {
+    int rc = mpq_set_str(r, s, (int) ab);
+    out_long(o, rc); if (rc == 0) out_mpq(o, r);
+    void (*ff)(void *, size_t); mp_get_memory_functions(NULL, NULL, &ff);
+    ff(s, strlen(s) + 1);
+  }
+  mpq_clear(q); mpq_clear(r); return 0;
+}
+
 const opdef_t ops_radix[] = {
+  {"mpz_roundtrip", op_mpz_roundtrip}, {"mpz_io_roundtrip", op_mpz_io_roundtrip}, {"mpq_roundtrip", op_mpq_roundtrip},
   {"mpz_get_str", op_mpz_get_str}, {"mpz_set_str", op_mpz_set_str}, {"mpz_init_set_str", op_mpz_init_set_str},
   {"mpz_sizeinbase", op_mpz_sizeinbase}, {"mpn_get_str", op_mpn_get_str},
   {"mpn_set_str", op_mpn_set_str}, {"mpn_set_str_raw", op_mpn_set_str_raw},
